@@ -77,6 +77,9 @@ func podSpecYAML(ind string, ports []CPort) string {
 func workloadDocs(w *Workload) []Doc {
 	lab := mapYAML(w.Labels)
 	meta := fmt.Sprintf("metadata: {name: %s, namespace: %s}\n", q(w.Name), q(w.Ns))
+	if w.OmitNs {
+		meta = fmt.Sprintf("metadata: {name: %s}\n", q(w.Name))
+	}
 	rep := ""
 	if w.Replicas != nil {
 		rep = fmt.Sprintf("  replicas: %d\n", *w.Replicas)
@@ -139,7 +142,11 @@ func podYAML(w *Workload, name, owner string) string {
 	if ip == "" {
 		ip = "10.244.0.7"
 	}
-	return "apiVersion: v1\nkind: Pod\nmetadata:\n  name: " + q(name) + "\n  namespace: " + q(w.Ns) + "\n  labels: " + mapYAML(w.Labels) + "\n" + owner +
+	nsLine := "\n  namespace: " + q(w.Ns)
+	if w.OmitNs {
+		nsLine = ""
+	}
+	return "apiVersion: v1\nkind: Pod\nmetadata:\n  name: " + q(name) + nsLine + "\n  labels: " + mapYAML(w.Labels) + "\n" + owner +
 		"spec:\n" + podSpecYAML("  ", w.Ports) +
 		"status:\n  hostIP: " + q(host) + "\n  podIP: " + q(ip) + "\n  podIPs: [{ip: " + q(ip) + "}]\n"
 }
@@ -183,7 +190,11 @@ func npPeerYAML(p NPPeer) string {
 }
 
 func NetPolYAML(n *NetPol) string {
-	s := "apiVersion: networking.k8s.io/v1\nkind: NetworkPolicy\nmetadata: {name: " + q(n.Name) + ", namespace: " + q(n.Ns) + "}\nspec:\n  podSelector: " + SelYAML(&n.PodSel) + "\n"
+	nsPart := ", namespace: " + q(n.Ns)
+	if n.OmitNs {
+		nsPart = ""
+	}
+	s := "apiVersion: networking.k8s.io/v1\nkind: NetworkPolicy\nmetadata: {name: " + q(n.Name) + nsPart + "}\nspec:\n  podSelector: " + SelYAML(&n.PodSel) + "\n"
 	if n.HasTypes {
 		s += "  policyTypes: [" + strings.Join(n.PolicyTypes, ", ") + "]\n"
 	}
